@@ -55,7 +55,8 @@ slash_hits_pending_record slash_record_to_zero slash_spares_older_record slash_m
 slash_partial_pool_fully_unbonding_other_bonded slash_partial_hits_pending_record
 slash_infraction_at_current_height slash_replay slash_factor_above_one slash_zero_value_operator nst_up
 nst_down_within_withdrawable nst_down_ends_inside_pending_records nst_down_reaches_shares nst_down_shares_two_operators
-nst_down_skips_zero_share_row""".split()
+nst_down_skips_zero_share_row msgdel_two_entries msgdel_second_entry_fails msgund_two_operators
+msgund_same_operator_twice msgund_second_entry_fails""".split()
 
 TAG_UNIVERSE = {
     "C01": ["C01_Conservation", "C01_Published", "C01_Escrow", "C01_NonNegative", "C01_OnlyDepositsCreate", "C01_NstAdjustmentNotApplied"],
@@ -236,8 +237,14 @@ def _collision_before(t):
     seen = []
     for x in t["history"]:
         if x["ev"] == "Undelegate" and x["ok"]:
-            k1 = (x["a"]["s"], x["a"]["a"], x["a"]["nonce"])
-            k2 = (x["h"], x["a"]["nonce"])
+            reqs = [(x["a"]["s"], x["a"]["a"], x["a"]["nonce"], x["h"])]
+        elif x["ev"] == "MsgUndelegate" and x["ok"]:
+            # one MsgUndelegation = one nonce for every per-operator entry
+            reqs = [(x["a"]["s"], "nat", x["a"]["nonce"], x["h"]) for _ in x["a"]["items"]]
+        else:
+            continue
+        for (s_, a_, n_, h_) in reqs:
+            k1, k2 = (s_, a_, n_), (h_, n_)
             for (a1, a2) in seen:
                 if a1 == k1 or a2 == k2:
                     return True
@@ -250,7 +257,12 @@ def _same_key_before(t):
     seen = set()
     for x in t["history"]:
         if x["ev"] == "Undelegate" and x["ok"]:
-            k = (x["a"]["o"], x["h"], x["a"]["nonce"], x["a"]["txh"])
+            ks = [(x["a"]["o"], x["h"], x["a"]["nonce"], x["a"]["txh"])]
+        elif x["ev"] == "MsgUndelegate" and x["ok"]:
+            ks = [(it["o"], x["h"], x["a"]["nonce"], x["a"]["txh"]) for it in x["a"]["items"]]
+        else:
+            continue
+        for k in ks:
             if k in seen:
                 return True
             seen.add(k)
